@@ -240,15 +240,27 @@ def run_check(prop: str, tier: str) -> int:
             for e in open_entries:
                 if not (rule_matches(e["rules"], v["rule"]) and signature_matches(e.get("signature", {}), v["features"])):
                     continue
-                neutral = machine.neutralise(scenario, e.get("neutraliser"), v) if e.get("neutraliser") else None
-                if neutral is None:
+                if not e.get("neutraliser"):
                     attributed = e
                     break
-                nres = procs.execute_scenario(machine, neutral)
-                if "harness_error" in nres or nres.get("timeout"):
-                    continue
-                if not any(machine.same_target(v, nv) for nv in nres["verdicts"]):
-                    attributed = e
+                # Remove the trigger and see whether the verdict disappears.  Removing it can let the victim live
+                # longer and meet the trigger again (the next overlapping evaluation), so iterate to a fixed point.
+                current, current_v = scenario, v
+                for _ in range(8):
+                    neutral = machine.neutralise(current, e["neutraliser"], current_v)
+                    if neutral is None or neutral.get("ops") == current.get("ops") and neutral.get("queries") == current.get("queries"):
+                        break
+                    nres = procs.execute_scenario(machine, neutral)
+                    if "harness_error" in nres or nres.get("timeout"):
+                        break
+                    again = [nv for nv in nres["verdicts"] if machine.same_target(v, nv)]
+                    if not again:
+                        attributed = e
+                        break
+                    if not (rule_matches(e["rules"], again[0]["rule"]) and signature_matches(e.get("signature", {}), again[0]["features"])):
+                        break  # what is left no longer carries the trigger: a different violation
+                    current, current_v = neutral, again[0]
+                if attributed is not None:
                     break
             if attributed is not None:
                 suppressed[attributed["id"]] += 1
